@@ -505,8 +505,9 @@ func (p *Projection) internRow() Key {
 		}
 	}
 
-	// Update observation orders.
-	for _, field := range p.Fields() {
+	// Update observation orders. This walks the flattened fields so
+	// that the sub-fields of group fields like .config are tracked, too.
+	for _, field := range p.FlattenedFields() {
 		if field.order == nil {
 			// Not tracking observation order for this field.
 			continue
